@@ -179,6 +179,39 @@ def _const_names_used(ctx: Ctx, fn: Func) -> List[str]:
     return out
 
 
+def version_tables_per_platform(ctx: Ctx, rep: Report, sel=None, rid: str = "R09.17") -> None:
+    """"On every platform, software version ...": where a platform's table depends on the software version, the tables it
+    chooses between are its own - a table that one platform selects for SOME versions only while another platform
+    selects it too is a version test that escaped the platform test it belongs under (NX-OS at major 15 reading the
+    IOS 15 table loses the NX-OS-only names)."""
+    if sel is None:
+        sub_ = Report(rep.property_id)
+        sub_.rule("R09.4")
+        sel = selection_table(ctx, sub_)
+    rep.rule(rid)
+    by_plat: Dict[Tuple[str, str], Dict[int, str]] = {}
+    for (proto, plat, major), (tname, _t) in sel.items():
+        by_plat.setdefault((proto, plat), {})[major] = tname
+    n17 = 0
+    for (proto, plat), per_major in sorted(by_plat.items()):
+        n17 += 1
+        rep.instance()
+        tabs = set(per_major.values())
+        bad17 = None
+        if len(tabs) > 1:
+            for (proto2, plat2), per2 in by_plat.items():
+                if proto2 == proto and plat2 != plat:
+                    shared = tabs & set(per2.values())
+                    # the same content under another name is the same table
+                    if shared:
+                        bad17 = (plat2, sorted(shared)[0], sorted(m for m, t in per_major.items() if t in shared))
+        if bad17:
+            rep.violation("PortName.names", f"protocol={proto} platform={plat}: {sorted(tabs)}", f"platform {plat} selects {bad17[1]} for version major {bad17[2]} only, and platform {bad17[0]} selects that table too: the version test applies outside the platform it belongs to, so {plat} entries of that version are read and written with another platform's names", "cisco_acl/port_name.py", inp=f"Ace('permit {proto} any any eq <a name only {plat} knows>', platform='{plat}', version='{bad17[2][0]}')")
+        else:
+            rep.ok(f"names() protocol={proto} platform={plat}", f"{len(tabs)} table(s), none shared with another platform for part of the versions", nontrivial=False)
+    rep.floor(6, "protocol x platform selections")
+
+
 def splitter_vocabulary(ctx: Ctx, rep: Report, rid: str = "R09.5", sel=None):
     """Every selectable port name is in the splitter's vocabulary, the destination port list ends only at a token
     that is neither a number nor a known name, and the grammar reads every known name as a source port.
@@ -380,6 +413,8 @@ def run(ctx: Ctx, rep: Report, tier: str) -> None:
         else:
             rep.instance()
             rep.violation("PortName.names", f"table {d}", f"the platform/version table {d} is never selected for any platform, protocol and version: its names are neither read nor written where they belong (a version or platform distinction was lost)", "cisco_acl/port_name.py", inp="PortName(protocol='tcp', platform='ios', version='16').names()")
+
+    version_tables_per_platform(ctx, rep, sel)
 
     # ---------------------------------------------------------------- R09.1 standard numbers
     rep.rule("R09.1")
